@@ -303,6 +303,9 @@ class DateTimeParser:
                 raise ValueError
 
             offset += minutes
+            if offset > 840:
+                raise ValueError
+
             offset *= -1 if ctrl == "-" else 1
             return offset
 
